@@ -739,6 +739,9 @@ int main(int argc, char **argv)
                     printf("\n");
                 }
                 fflush(stdout);
+#ifdef SIM_COV
+                { extern void __gcov_dump(void); __gcov_dump(); }       /* the reach measurement (sim/reach.py) counts forked runs too */
+#endif
                 _exit(0);
             } else {
                 int st = 0;
